@@ -36,7 +36,10 @@ fn brief(r: &Recovered) -> String {
     format!("{} keys; other than the fillers: {:?}", r.keys.len(), interesting)
 }
 
-pub fn image(version: u32) -> (Vec<u8>, u64) {
+/// `torn_slot0`: the journal as a crash inside an earlier write batch left it — slot 0
+/// holds a torn (checksum-invalid) ACTIVE record, slot 1 the valid CLEAR before it, so
+/// that recovery's own first journal write must go to slot 0 and leave slot 1 alone.
+pub fn image(version: u32, torn_slot0: bool) -> (Vec<u8>, u64) {
     let total = 16 + 2 * ISOLATED + 4;
     let mut img = l::empty_device(version, total, T0 / SEC);
     let mut put = |at: u64, key: &[u8], value: &[u8], ts: u64, expiry: u64| {
@@ -46,21 +49,47 @@ pub fn image(version: u32) -> (Vec<u8>, u64) {
         l::put(&mut img, at, &bytes);
     };
     let expired = T0 + SEC;
-    // newest generation of k: expired, on the lowest data block
-    put(16, b"k", b"newest generation (expired)", 300, expired);
-    put(17, b"f-first", b"filler", 50, 0);
-    for i in 0..ISOLATED {
-        put(18 + 2 * i, format!("e{i:04}").as_bytes(), b"expired", 100, expired);
-        put(19 + 2 * i, format!("f{i:04}").as_bytes(), b"filler", 50, 0);
+    if torn_slot0 {
+        // one live key with more than a thousand superseded generations scattered over the
+        // device: recovery's *first* journal record is three blocks long
+        put(16, b"k", b"newest generation", 50_000, 0);
+        put(17, b"f-first", b"filler", 50, 0);
+        for i in 0..ISOLATED {
+            put(18 + 2 * i, b"k", format!("superseded generation {i}").as_bytes(), 100 + i, 0);
+            put(19 + 2 * i, format!("f{i:04}").as_bytes(), b"filler", 50, 0);
+        }
+    } else {
+        // newest generation of k: expired, on the lowest data block
+        put(16, b"k", b"newest generation (expired)", 300, expired);
+        put(17, b"f-first", b"filler", 50, 0);
+        for i in 0..ISOLATED {
+            put(18 + 2 * i, format!("e{i:04}").as_bytes(), b"expired", 100, expired);
+            put(19 + 2 * i, format!("f{i:04}").as_bytes(), b"filler", 50, 0);
+        }
+        // older generation of k: no expiry, behind everything else
+        put(18 + 2 * ISOLATED, b"k", b"older generation (no expiry)", 200, 0);
     }
-    // older generation of k: no expiry, behind everything else
-    put(18 + 2 * ISOLATED, b"k", b"older generation (no expiry)", 200, 0);
+    if torn_slot0 {
+        let clear = l::encode_journal(6, &[]);
+        l::put(&mut img, 4, &clear);
+        let mut active = l::encode_journal(7, &[(19 + 2 * ISOLATED, 1)]);
+        let n = active.len();
+        active[n / 2] ^= 0xff; // the tail of the record never reached the device
+        l::put(&mut img, 1, &active);
+    }
     (img, total)
 }
 
 pub fn run(accept: &[&str], report: &mut Report) {
+    run_variant(accept, report, false);
+    if report.violations.is_empty() {
+        run_variant(accept, report, true);
+    }
+}
+
+fn run_variant(accept: &[&str], report: &mut Report, torn_slot0: bool) {
     let version = 3u32;
-    let (img0, total) = image(version);
+    let (img0, total) = image(version, torn_slot0);
     let mut cfg = Cfg::persistent(total - 16);
     cfg.ttl = true;
     cfg.cache = false;
@@ -78,7 +107,12 @@ pub fn run(accept: &[&str], report: &mut Report) {
     };
     sut0.close();
     let log = s0.take_log();
-    if rec0.keys.contains_key(b"k".as_slice()) || rec0.keys.keys().any(|k| k.starts_with(b"e")) {
+    let as_designed = if torn_slot0 {
+        rec0.keys.get(b"k".as_slice()).is_some_and(|r| r.ts == 50_000)
+    } else {
+        !rec0.keys.contains_key(b"k".as_slice()) && !rec0.keys.keys().any(|k| k.starts_with(b"e"))
+    };
+    if !as_designed {
         report.machinery(format!("big-recovery reference is not as designed: {}", brief(&rec0)));
         return;
     }
@@ -154,7 +188,7 @@ pub fn run(accept: &[&str], report: &mut Report) {
     report.add("recoveries_run", n_images + 1);
     report.add("traces_validated_against_impl", n_images + 1);
     report.set(
-        "big_recovery",
+        if torn_slot0 { "big_recovery_torn_journal_slot" } else { "big_recovery" },
         json!({"records_on_device": 2 * ISOLATED + 3, "extents_recovery_retires": ISOLATED + 2, "journal_records_written_by_recovery": journal_records, "recovery_epochs": eps.len(), "distinct_crash_images": n_images,
                "note": "epochs with more than 8 in-flight blocks: prefixes, suffixes, singles and co-singles at a stride (bounded family)"}),
     );
@@ -172,8 +206,15 @@ pub fn run(accept: &[&str], report: &mut Report) {
             continue;
         }
         report.violation(
-            format!("bigrecovery|{}|{}", desc.chars().take(60).collect::<String>(), msg.chars().take(100).collect::<String>()),
-            format!("synthesised device: expired newest generation of k on block 16, {ISOLATED} isolated expired records, older unexpired generation of k on block {}\n{desc}\n{msg}", 18 + 2 * ISOLATED),
+            format!("bigrecovery{}|{}|{}", if torn_slot0 { "+torn-slot0" } else { "" }, desc.chars().take(60).collect::<String>(), msg.chars().take(100).collect::<String>()),
+            format!(
+                "synthesised device: {}\n{desc}\n{msg}",
+                if torn_slot0 {
+                    format!("newest generation of k on block 16, {ISOLATED} superseded generations of k scattered behind it, journal slot 0 torn, slot 1 a valid CLEAR")
+                } else {
+                    format!("expired newest generation of k on block 16, {ISOLATED} isolated expired records, older unexpired generation of k on block {}", 18 + 2 * ISOLATED)
+                }
+            ),
             json!({"engine":"bigrecovery","image":desc}),
         );
     }
